@@ -171,6 +171,13 @@ def shard(S, p):
             S.observe("threads", t)
             if container in ("vcf.gz", "bcf"):
                 S.observe("layouts", layout)
+        # the same text without the line feed after its last line (files written by printf / editors): still the same records
+        if vcf.endswith(b"\n"):
+            v2 = vcf[:-1]
+            record("vcf(no final LF)/%s/t2" % ("stdin" if si % 2 else "path"), one_run(v2, smap, project, "stdin" if si % 2 else "path.vcf", 2), v2)
+            g2 = vcfgen.bgzf(v2, [len(v2) // 2] if len(v2) > 2 else [])
+            record("vcf.gz(no final LF)/%s/t%d" % ("path" if si % 2 else "stdin", 1 + si % 3), one_run(g2, smap, project, "path.vcf.gz" if si % 2 else "stdin", 1 + si % 3), g2)
+            S.count("no_final_newline_runs", 2)
         # repetitions, environment, pinning, jitter
         container, layout = rng.choice([("vcf.gz", "unit"), ("bcf", "unit"), ("bcf", "tiny"), ("vcf.gz", "midrecord")])
         data = enc(container, layout)
